@@ -8,12 +8,10 @@ is its degree value, an `Epoch` its JDE).  `dir lon lat` is the unit vector of a
 `precessionRot ζ z θ = Rz(z) · Ry(θ) · Rz(ζ)`; `fk5Zeta e0 e1`, `fk5Z e0 e1`, `fk5Theta e0 e1` are the three
 angles the source computes for the epochs `e0 → e1` (its polynomials, through `Angle(0, 0, seconds)`, in radians).
 
-The formulas of the source use no `tan` and no division, so the only partial operation is `asin` / `acos`; the
-conclusion `… = .ok …` says that no ValueError is raised in real arithmetic.
-
-Branch of the source: `if start_dec > 85.0: final_dec = acos(sqrt(a*a + b*b)) else: final_dec = asin(c)`.
-The `acos` branch returns the absolute value of the declination (theorem `polar_branch`); hence the hypothesis
-"start declination ≤ 85°, or the rotated vector has a non-negative z component" in the rotation theorems.
+The source (after the fixes proposed in findings.d/proposed-5.patch and proposed-6.patch) returns
+`final_dec = atan2(c, sqrt(a*a + b*b))` for every start: no branch on the declination, no `asin`/`acos`, no
+division.  The rotation theorems therefore hold for EVERY direction, both poles included, with no safety
+hypothesis; the conclusion `… = .ok …` says that nothing is raised.
 
 NOT carried by any theorem here (numerical agreements between different truncated series; they are measured on
 the implementation by harness/c06.py only): ecliptical there-and-back (1e-6°), equatorial route vs ecliptical
@@ -24,52 +22,40 @@ namespace Pymeeus.C06
 open Real Pymeeus Pymeeus.PR Pymeeus.GenR.Coords Pymeeus.Spec.Sphere Pymeeus.Refine.Coords
 
 /-- "Precessing mean coordinates between two epochs is a rigid rotation of the sky": without proper motion, the
-    direction returned is `Rz(z) Ry(θ) Rz(ζ)` applied to the starting direction (the standard ζ, z, θ product),
-    for every pair of epochs (JDE) and every start with declination ≤ 85° — in particular everywhere within 5° of the
-    south pole — or above 85° when the rotated declination is not negative. -/
-theorem equatorial_is_rotation (e0 e1 α δ : ℝ) (hα : |α| < 360) (hδ : |δ| < 360)
-    (h : ¬ (85 < δ) ∨ 0 ≤ (rotY (fk5Theta e0 e1) (rotZ (fk5Zeta e0 e1) (dir α δ))).2.2) :
+    direction returned is `Rz(z) Ry(θ) Rz(ζ)` applied to the starting direction (the standard ζ, z, θ product), for
+    every pair of epochs (JDE) and "every declination including within 5 degrees of either pole" (and the poles). -/
+theorem equatorial_is_rotation (e0 e1 α δ : ℝ) (hα : |α| < 360) (hδ : |δ| < 360) :
     ∃ ra dec, precession_equatorial e0 e1 α δ 0 0 = .ok (ra, dec) ∧
       dir ra dec = precessionRot (fk5Zeta e0 e1) (fk5Z e0 e1) (fk5Theta e0 e1) (dir α δ) ∧
       |ra| < 360 ∧ -90 ≤ dec ∧ dec ≤ 90 :=
-  precession_equatorial_rot e0 e1 α δ hα hδ h
+  precession_equatorial_rot e0 e1 α δ hα hδ
 
-example : ¬ ((85 : ℝ) < -89.5) ∨ (0 : ℝ) ≤ 0 := by left; norm_num
-
-/-- The near-pole branch (start declination > 85°): the result is `Rz(z)` applied to `(x, y, |z|)` where
-    `(x, y, z) = Ry(θ) Rz(ζ) · start`: the right ascension is that of the rotation, the declination is the ABSOLUTE
-    VALUE of the rotated declination, always in [0°, 90°].  (So the branch agrees with the rotation exactly when the
-    rotated declination is not negative; it is only selected near the NORTH pole.) -/
-theorem polar_branch (α δ ζ z θ : ℝ) (hδ : 85 < δ) :
-    ∃ ra dec, precession_apply α δ ζ z θ = .ok (ra, dec) ∧
-      dir ra dec = rotZ (rad z)
-        ((rotY (rad θ) (rotZ (rad ζ) (dir α δ))).1, (rotY (rad θ) (rotZ (rad ζ) (dir α δ))).2.1,
-         |(rotY (rad θ) (rotZ (rad ζ) (dir α δ))).2.2|) ∧ |ra| < 360 ∧ 0 ≤ dec ∧ dec ≤ 90 :=
-  precession_apply_acos α δ ζ z θ hδ
+example : |(41 : ℝ)| < 360 ∧ |(-89.5 : ℝ)| < 360 := by
+  constructor <;> rw [abs_lt] <;> constructor <;> norm_num
 
 /-- The same rotation statement for the common tail of `precession_equatorial` and `precession_newcomb`, with
     arbitrary Angles ζ, z, θ (degrees). -/
-theorem apply_is_rotation (α δ ζ z θ : ℝ)
-    (h : ¬ (85 < δ) ∨ 0 ≤ (rotY (rad θ) (rotZ (rad ζ) (dir α δ))).2.2) :
+theorem apply_is_rotation (α δ ζ z θ : ℝ) :
     ∃ ra dec, precession_apply α δ ζ z θ = .ok (ra, dec) ∧
       dir ra dec = precessionRot (rad ζ) (rad z) (rad θ) (dir α δ) ∧ |ra| < 360 ∧ -90 ≤ dec ∧ dec ≤ 90 :=
-  precession_apply_rot α δ ζ z θ h
+  precession_apply_rot α δ ζ z θ
+
+/-- The rotation written with the polynomials of the source themselves: `Angle(0, 0, seconds)` acts as
+    `seconds / 3600` degrees (its sexagesimal reduction only removes whole turns), so the Euler angles are
+    ζ, z, θ = (polynomial in T, t) / 3600 degrees, `T = (e0 - 2451545) / 36525`, `t = (e1 - e0) / 36525`. -/
+theorem equatorial_is_rotation_poly (e0 e1 α δ : ℝ) (hα : |α| < 360) (hδ : |δ| < 360) :
+    ∃ ra dec, precession_equatorial e0 e1 α δ 0 0 = .ok (ra, dec) ∧
+      dir ra dec = precessionRot (rad (fk5_zeta ((e0 - 2451545.0) / 36525.0) ((e1 - e0) / 36525.0) / 3600))
+        (rad (fk5_z ((e0 - 2451545.0) / 36525.0) ((e1 - e0) / 36525.0) / 3600))
+        (rad (fk5_theta ((e0 - 2451545.0) / 36525.0) ((e1 - e0) / 36525.0) / 3600)) (dir α δ) := by
+  obtain ⟨ra, dec, hok, hdir, _⟩ := precession_equatorial_rot e0 e1 α δ hα hδ
+  exact ⟨ra, dec, hok, by rw [hdir, precessionRot_fk5_poly]⟩
 
 /-- "a zero interval is the identity". -/
-theorem zero_interval (e α δ : ℝ) (hα : |α| < 360) (hδ : -90 ≤ δ ∧ δ ≤ 90) :
+theorem zero_interval (e α δ : ℝ) (hα : |α| < 360) (hδ : |δ| < 360) :
     ∃ ra dec, precession_equatorial e e α δ 0 0 = .ok (ra, dec) ∧ dir ra dec = dir α δ := by
   obtain ⟨h1, h2, h3⟩ := fk5_same e
-  have hδ' : |δ| < 360 := by rw [abs_lt]; constructor <;> linarith [hδ.1, hδ.2]
-  have h : ¬ (85 < δ) ∨ 0 ≤ (rotY (fk5Theta e e) (rotZ (fk5Zeta e e) (dir α δ))).2.2 := by
-    by_cases h85 : 85 < δ
-    · right
-      rw [h1, h3, rotZ_zero, rotY_zero]
-      show 0 ≤ sin (rad δ)
-      apply sin_nonneg_of_nonneg_of_le_pi <;> unfold rad
-      · exact mul_nonneg (by linarith) (by positivity)
-      · nlinarith [pi_pos, hδ.2]
-    · left; exact h85
-  obtain ⟨ra, dec, hok, hd, _⟩ := precession_equatorial_rot e e α δ hα hδ' h
+  obtain ⟨ra, dec, hok, hd, _⟩ := precession_equatorial_rot e e α δ hα hδ
   exact ⟨ra, dec, hok, by rw [hd, h1, h2, h3, precessionRot_zero]⟩
 
 /-- The polynomials of the source invert EXACTLY: for the way back (`T' = T + t`, `t' = -t`) the three angles are
@@ -79,51 +65,33 @@ theorem fk5_angles_invert (e0 e1 : ℝ) :
     fk5Zeta e1 e0 = -fk5Z e0 e1 ∧ fk5Z e1 e0 = -fk5Zeta e0 e1 ∧ fk5Theta e1 e0 = -fk5Theta e0 e1 :=
   fk5_back e0 e1
 
-/-- "going there and back returns the starting direction": exactly, in real arithmetic, for every pair of epochs.
-    (`h1`, `h2`: each leg uses the `asin` branch, or the `acos` branch with a non-negative declination to return.) -/
+/-- "going there and back returns the starting direction": exactly, in real arithmetic, for every pair of epochs
+    and every direction. -/
 theorem there_and_back (e0 e1 α δ α1 δ1 : ℝ) (hα : |α| < 360) (hδ : |δ| < 360)
-    (h : precession_equatorial e0 e1 α δ 0 0 = .ok (α1, δ1))
-    (h1 : ¬ (85 < δ) ∨ 0 ≤ (rotY (fk5Theta e0 e1) (rotZ (fk5Zeta e0 e1) (dir α δ))).2.2)
-    (h2 : ¬ (85 < δ1) ∨ 0 ≤ sin (rad δ)) :
+    (h : precession_equatorial e0 e1 α δ 0 0 = .ok (α1, δ1)) :
     ∃ α2 δ2, precession_equatorial e1 e0 α1 δ1 0 0 = .ok (α2, δ2) ∧ dir α2 δ2 = dir α δ := by
-  obtain ⟨ra, dec, hok, hd, hra, hd0, hd1⟩ := precession_equatorial_rot e0 e1 α δ hα hδ h1
+  obtain ⟨ra, dec, hok, hd, hra, hd0, hd1⟩ := precession_equatorial_rot e0 e1 α δ hα hδ
   rw [h] at hok; injection hok with hok; injection hok with x1 x2; subst x1 x2
   obtain ⟨b1, b2, b3⟩ := fk5_back e0 e1
   have hδ1 : |δ1| < 360 := by rw [abs_lt]; constructor <;> linarith
-  have hz : (rotY (fk5Theta e1 e0) (rotZ (fk5Zeta e1 e0) (dir α1 δ1))).2.2 = sin (rad δ) := by
-    rw [b1, b3, hd]; unfold precessionRot
-    rw [rotZ_neg_rotZ, rotY_neg_rotY]
-    rfl
-  have h2' : ¬ (85 < δ1) ∨ 0 ≤ (rotY (fk5Theta e1 e0) (rotZ (fk5Zeta e1 e0) (dir α1 δ1))).2.2 := by
-    rw [hz]; exact h2
-  obtain ⟨α2, δ2, hok2, hdir2, _⟩ := precession_equatorial_rot e1 e0 α1 δ1 hra hδ1 h2'
+  obtain ⟨α2, δ2, hok2, hdir2, _⟩ := precession_equatorial_rot e1 e0 α1 δ1 hra hδ1
   exact ⟨α2, δ2, hok2, by rw [hdir2, hd, b1, b2, b3, precessionRot_inverse]⟩
 
-/-- The hypotheses of `there_and_back` are satisfiable: a star at δ = 49° precessed over 50 years. -/
-example : ∃ α1 δ1, precession_equatorial 2451545 2469807.5 41 49 0 0 = .ok (α1, δ1) ∧
-    (¬ ((85 : ℝ) < 49) ∨ 0 ≤ (rotY (fk5Theta 2451545 2469807.5) (rotZ (fk5Zeta 2451545 2469807.5) (dir 41 49))).2.2) := by
-  obtain ⟨ra, dec, h, _⟩ := equatorial_is_rotation 2451545 2469807.5 41 49
-    (by rw [abs_lt]; constructor <;> norm_num) (by rw [abs_lt]; constructor <;> norm_num) (Or.inl (by norm_num))
-  exact ⟨ra, dec, h, Or.inl (by norm_num)⟩
-
-/-- There and back for every star south of +85° whose precessed declination is also ≤ 85°
-    (the plain `asin`/`asin` case; includes the whole southern sky and its pole). -/
-theorem there_and_back_below_85 (e0 e1 α δ α1 δ1 : ℝ) (hα : |α| < 360) (hδ : |δ| < 360)
-    (h : precession_equatorial e0 e1 α δ 0 0 = .ok (α1, δ1)) (h1 : δ ≤ 85) (h2 : δ1 ≤ 85) :
-    ∃ α2 δ2, precession_equatorial e1 e0 α1 δ1 0 0 = .ok (α2, δ2) ∧ dir α2 δ2 = dir α δ :=
-  there_and_back e0 e1 α δ α1 δ1 hα hδ h (Or.inl (not_lt.mpr h1)) (Or.inl (not_lt.mpr h2))
+/-- The hypothesis of `there_and_back` is satisfiable: a star at δ = 89.26° (Polaris) precessed over 50 years. -/
+example : ∃ α1 δ1, precession_equatorial 2451545 2469807.5 37.95 89.26 0 0 = .ok (α1, δ1) := by
+  obtain ⟨ra, dec, h, _⟩ := equatorial_is_rotation 2451545 2469807.5 37.95 89.26
+    (by rw [abs_lt]; constructor <;> norm_num) (by rw [abs_lt]; constructor <;> norm_num)
+  exact ⟨ra, dec, h⟩
 
 /-- "the angle between any two stars is unchanged": the dot product of the two unit vectors is preserved. -/
 theorem preserves_angle (e0 e1 α δ α' δ' ra dec ra' dec' : ℝ)
     (hα : |α| < 360) (hδ : |δ| < 360) (hα' : |α'| < 360) (hδ' : |δ'| < 360)
-    (h : ¬ (85 < δ) ∨ 0 ≤ (rotY (fk5Theta e0 e1) (rotZ (fk5Zeta e0 e1) (dir α δ))).2.2)
-    (h' : ¬ (85 < δ') ∨ 0 ≤ (rotY (fk5Theta e0 e1) (rotZ (fk5Zeta e0 e1) (dir α' δ'))).2.2)
     (e : precession_equatorial e0 e1 α δ 0 0 = .ok (ra, dec))
     (e' : precession_equatorial e0 e1 α' δ' 0 0 = .ok (ra', dec')) :
     dot (dir ra dec) (dir ra' dec') = dot (dir α δ) (dir α' δ') := by
-  obtain ⟨_, _, hok, hd, _⟩ := precession_equatorial_rot e0 e1 α δ hα hδ h
+  obtain ⟨_, _, hok, hd, _⟩ := precession_equatorial_rot e0 e1 α δ hα hδ
   rw [e] at hok; injection hok with hok; injection hok with x1 x2; subst x1 x2
-  obtain ⟨_, _, hok, hd', _⟩ := precession_equatorial_rot e0 e1 α' δ' hα' hδ' h'
+  obtain ⟨_, _, hok, hd', _⟩ := precession_equatorial_rot e0 e1 α' δ' hα' hδ'
   rw [e'] at hok; injection hok with hok; injection hok with x1 x2; subst x1 x2
   rw [hd, hd', precessionRot_dot]
 
@@ -139,12 +107,8 @@ theorem proper_motion_linear (e0 e1 α δ μα μδ : ℝ) :
   refine ⟨_, _, K, L, hK, hL, ?_⟩
   rw [precession_equatorial_eq, precession_equatorial_eq, pm_zero (abs_a_add_lt _ _), pm_zero (abs_a_add_lt _ _)]
 
-/-- `precession_newcomb` (FK4) has the same rotation structure with Newcomb's angles. -/
-theorem newcomb_is_rotation (e0 e1 α δ : ℝ) (hα : |α| < 360) (hδ : |δ| < 360)
-    (h : ¬ (85 < δ) ∨ 0 ≤ (rotY
-      (rad (a_of_sec (newcomb_theta ((e0 - 2415020.3135) / 36524.2199) ((e1 - e0) / 36524.2199))))
-      (rotZ (rad (a_of_sec (newcomb_zeta ((e0 - 2415020.3135) / 36524.2199) ((e1 - e0) / 36524.2199))))
-        (dir α δ))).2.2) :
+/-- `precession_newcomb` (FK4) has the same rotation structure with Newcomb's angles, for every direction. -/
+theorem newcomb_is_rotation (e0 e1 α δ : ℝ) (hα : |α| < 360) (hδ : |δ| < 360) :
     ∃ ra dec, precession_newcomb e0 e1 α δ 0 0 = .ok (ra, dec) ∧
       dir ra dec = precessionRot
         (rad (a_of_sec (newcomb_zeta ((e0 - 2415020.3135) / 36524.2199) ((e1 - e0) / 36524.2199))))
@@ -152,7 +116,7 @@ theorem newcomb_is_rotation (e0 e1 α δ : ℝ) (hα : |α| < 360) (hδ : |δ| <
         (rad (a_of_sec (newcomb_theta ((e0 - 2415020.3135) / 36524.2199) ((e1 - e0) / 36524.2199))))
         (dir α δ) ∧ -90 ≤ dec ∧ dec ≤ 90 := by
   rw [precession_newcomb_eq, pm_zero hα, pm_zero hδ]
-  obtain ⟨ra, dec, hok, hd, _, hr⟩ := precession_apply_rot α δ _ _ _ h
+  obtain ⟨ra, dec, hok, hd, _, hr⟩ := precession_apply_rot α δ _ _ _
   exact ⟨ra, dec, hok, hd, hr⟩
 
 /-- `precession_ecliptical` is a rotation for every direction, with no branch and no exception: longitude
@@ -174,36 +138,14 @@ theorem ecliptical_rotation_orthogonal (p pie eta : ℝ) (u v : V3) :
     dot (flipZ (p + pie) (rotX (-eta) (flipZ pie u))) (flipZ (p + pie) (rotX (-eta) (flipZ pie v))) = dot u v := by
   rw [flipZ_dot, rotX_dot, flipZ_dot]
 
-/-- The rotation of `equatorial_is_rotation` written with the polynomials of the source themselves:
-    `Angle(0, 0, seconds)` acts as `seconds / 3600` degrees (its sexagesimal reduction only removes whole turns), so the
-    Euler angles are ζ, z, θ = (polynomial in T, t) / 3600 degrees, `T = (e0 - 2451545) / 36525`, `t = (e1 - e0) / 36525`. -/
-theorem equatorial_is_rotation_poly (e0 e1 α δ : ℝ) (hα : |α| < 360) (hδ : δ ≤ 85) (hδ' : -360 < δ) :
-    ∃ ra dec, precession_equatorial e0 e1 α δ 0 0 = .ok (ra, dec) ∧
-      dir ra dec = precessionRot (rad (fk5_zeta ((e0 - 2451545.0) / 36525.0) ((e1 - e0) / 36525.0) / 3600))
-        (rad (fk5_z ((e0 - 2451545.0) / 36525.0) ((e1 - e0) / 36525.0) / 3600))
-        (rad (fk5_theta ((e0 - 2451545.0) / 36525.0) ((e1 - e0) / 36525.0) / 3600)) (dir α δ) := by
-  have hd : |δ| < 360 := by rw [abs_lt]; constructor <;> linarith
-  obtain ⟨ra, dec, hok, hdir, _⟩ := precession_equatorial_rot e0 e1 α δ hα hd (Or.inl (not_lt.mpr hδ))
-  exact ⟨ra, dec, hok, by rw [hdir, precessionRot_fk5_poly]⟩
-
 /-- "a zero interval is the identity", FK4 variant. -/
-theorem newcomb_zero_interval (e α δ : ℝ) (hα : |α| < 360) (hδ : -90 ≤ δ ∧ δ ≤ 90) :
+theorem newcomb_zero_interval (e α δ : ℝ) (hα : |α| < 360) (hδ : |δ| < 360) :
     ∃ ra dec, precession_newcomb e e α δ 0 0 = .ok (ra, dec) ∧ dir ra dec = dir α δ := by
-  have hδ' : |δ| < 360 := by rw [abs_lt]; constructor <;> linarith [hδ.1, hδ.2]
   have ht : (e - e) / 36524.2199 = (0 : ℝ) := by simp
   obtain ⟨z1, z2, z3⟩ := newcomb_zero ((e - 2415020.3135) / 36524.2199)
   have r0 : rad 0 = 0 := by unfold rad; ring
-  rw [precession_newcomb_eq, pm_zero hα, pm_zero hδ', ht, z1, z2, z3, a_of_sec_zero]
-  have h : ¬ (85 < δ) ∨ 0 ≤ (rotY (rad 0) (rotZ (rad 0) (dir α δ))).2.2 := by
-    by_cases h85 : 85 < δ
-    · right
-      rw [r0, rotZ_zero, rotY_zero]
-      show 0 ≤ sin (rad δ)
-      apply sin_nonneg_of_nonneg_of_le_pi <;> unfold rad
-      · exact mul_nonneg (by linarith) (by positivity)
-      · nlinarith [pi_pos, hδ.2]
-    · left; exact h85
-  obtain ⟨ra, dec, hok, hd, _⟩ := precession_apply_rot α δ 0 0 0 h
+  rw [precession_newcomb_eq, pm_zero hα, pm_zero hδ, ht, z1, z2, z3, a_of_sec_zero]
+  obtain ⟨ra, dec, hok, hd, _⟩ := precession_apply_rot α δ 0 0 0
   exact ⟨ra, dec, hok, by rw [hd, r0, precessionRot_zero]⟩
 
 /-- "a zero interval is the identity", ecliptical variant (every direction, both poles included). -/
@@ -245,9 +187,9 @@ theorem proper_motion_total_invariant (μα μδ α δ β ε : ℝ)
   linear_combination ((rad μδ) ^ 2 + (rad μα * cos (rad δ)) ^ 2) * hAB
 
 /-- The hypothesis `hβ` of `proper_motion_total_invariant` is what `equatorial2ecliptical` returns as latitude. -/
-example (α δ ε : ℝ) (hδ : -90 < δ ∧ δ < 90) : ∃ lon β, equatorial2ecliptical α δ ε = .ok (lon, β) ∧
+example (α δ ε : ℝ) : ∃ lon β, equatorial2ecliptical α δ ε = .ok (lon, β) ∧
     sin (rad β) = sin (rad δ) * cos (rad ε) - cos (rad δ) * sin (rad ε) * sin (rad α) := by
-  obtain ⟨lon, lat, h, hd, _, _⟩ := equatorial2ecliptical_spec α δ ε hδ
+  obtain ⟨lon, lat, h, hd, _, _⟩ := equatorial2ecliptical_spec α δ ε
   refine ⟨lon, lat, h, ?_⟩
   have := congrArg (fun v : V3 => v.2.2) hd
   simp only [dir, rotX] at this
@@ -278,20 +220,40 @@ theorem motion_in_space_is_linear (α δ r v μα μδ t : ℝ) (hr : r ≠ 0)
       -90 ≤ dec ∧ dec ≤ 90 :=
   motion_in_space_spec α δ r v μα μδ t hr hρ
 
-/-- "This holds for every declination including within 5 degrees of either pole": for both epochs within ±5
-    centuries of J2000 (|JDE − 2451545| ≤ 182625 days) the near-pole branch is exact too: every start with
-    85° < δ ≤ 90° is carried by the same rotation (θ stays below 6°, so the rotated declination stays positive and the
-    `acos` formula returns it).  Together with `equatorial_is_rotation` (δ ≤ 85°, any epochs) this covers the whole sphere. -/
-theorem equatorial_is_rotation_near_north_pole (e0 e1 α δ : ℝ) (hα : |α| < 360) (hδ : 85 < δ ∧ δ ≤ 90)
-    (h0 : |e0 - 2451545| ≤ 182625) (h1 : |e1 - 2451545| ≤ 182625) :
-    ∃ ra dec, precession_equatorial e0 e1 α δ 0 0 = .ok (ra, dec) ∧
-      dir ra dec = precessionRot (fk5Zeta e0 e1) (fk5Z e0 e1) (fk5Theta e0 e1) (dir α δ) ∧
-      |ra| < 360 ∧ -90 ≤ dec ∧ dec ≤ 90 :=
-  precession_equatorial_rot e0 e1 α δ hα (by rw [abs_lt]; constructor <;> linarith [hδ.1, hδ.2])
-    (Or.inr (fk5_polar_ok e0 e1 α δ hδ h0 h1))
-
-example : |(2451545 : ℝ) - 2451545| ≤ 182625 ∧ |(2469807.5 : ℝ) - 2451545| ≤ 182625 ∧ (85 : ℝ) < 89.26 ∧ (89.26 : ℝ) ≤ 90 := by
-  refine ⟨by norm_num, ?_, by norm_num, by norm_num⟩
-  rw [abs_le]; constructor <;> norm_num
+/-- `orbital_equinox2equinox` (after the fix): nothing is raised, the new inclination lies in [0°, 180°] and obeys the
+    spherical cosine rule `cos i' = cos i0 cos η + sin i0 sin η cos(Ω0 − Π)` — retrograde orbits, i0 = 0 and i0 = 90°
+    included (η, Π the Angles the source forms from its polynomials). -/
+theorem orbital_inclination (e0 e1 i0 arg0 lon0 : ℝ) :
+    ∃ i1 arg1 lon1, orbital_equinox2equinox e0 e1 i0 arg0 lon0 = .ok (i1, arg1, lon1) ∧ 0 ≤ i1 ∧ i1 ≤ 180 ∧
+      cos (rad i1) =
+        cos (rad i0) * cos (rad (a_of_sec (ecl_eta ((e0 - 2451545.0) / 36525.0) ((e1 - e0) / 36525.0))))
+        + sin (rad i0) * sin (rad (a_of_sec (ecl_eta ((e0 - 2451545.0) / 36525.0) ((e1 - e0) / 36525.0))))
+          * cos (rad lon0 - rad (a_add (a_of_sec (ecl_pie ((e0 - 2451545.0) / 36525.0) ((e1 - e0) / 36525.0))) 174.876384)) := by
+  unfold orbital_equinox2equinox
+  simp only [pure, Except.pure, psin, pcos, psqrt, a_rad_eq]
+  set η := rad (a_of_sec (ecl_eta ((e0 - 2451545.0) / 36525.0) ((e1 - e0) / 36525.0))) with hη
+  set Δ := rad lon0 - rad (a_add (a_of_sec (ecl_pie ((e0 - 2451545.0) / 36525.0) ((e1 - e0) / 36525.0))) 174.876384) with hΔ
+  set a := sin (rad i0) * sin Δ with ha
+  set b := -sin η * cos (rad i0) + cos η * sin (rad i0) * cos Δ with hb
+  set c := cos (rad i0) * cos η + sin (rad i0) * sin η * cos Δ with hc
+  have hu : a ^ 2 + b ^ 2 + c ^ 2 = 1 := by
+    rw [ha, hb, hc]
+    linear_combination (cos (rad i0) ^ 2 + sin (rad i0) ^ 2 * cos Δ ^ 2) * sin_sq_add_cos_sq η
+      + sin (rad i0) ^ 2 * sin_sq_add_cos_sq Δ + sin_sq_add_cos_sq (rad i0)
+  set r := √(a * a + b * b) with hr
+  have hr0 : 0 ≤ r := sqrt_nonneg _
+  have hr2 : r * r = a * a + b * b := mul_self_sqrt (add_nonneg (mul_self_nonneg a) (mul_self_nonneg b))
+  have hn : ‖(⟨c, r⟩ : ℂ)‖ = 1 := by
+    rw [Complex.norm_def, Complex.normSq_mk, show c * c + r * r = 1 by nlinarith]; exact sqrt_one
+  have hne : (⟨c, r⟩ : ℂ) ≠ 0 := by
+    intro h0; rw [h0, norm_zero] at hn; exact zero_ne_one hn
+  have h0 : 0 ≤ Complex.arg ⟨c, r⟩ := Complex.arg_nonneg_iff.mpr hr0
+  have h1 : Complex.arg ⟨c, r⟩ ≤ π := Complex.arg_le_pi _
+  have hab : |patan2 r c| < 2 * π := by
+    unfold patan2; rw [abs_lt]; constructor <;> linarith [pi_pos]
+  have hb' := a_of_rad_bounds (lo := 0) (hi := 180) hab (by unfold patan2; linarith) (by unfold patan2; linarith [pi_pos])
+  refine ⟨_, _, _, rfl, hb'.1, hb'.2, ?_⟩
+  rw [cos_rad_of_rad]; unfold patan2
+  rw [Complex.cos_arg hne, hn]; simp
 
 end Pymeeus.C06
